@@ -2047,7 +2047,13 @@ getattr_delegate(trait_object *trait, has_traits_object *obj, PyObject *name)
     tp = Py_TYPE(delegate);
 
     if (tp->tp_getattro != NULL) {
+        /* A cyclic chain of delegates must raise, not overflow the C stack. */
+        if (Py_EnterRecursiveCall(" while getting a delegated trait")) {
+            result = NULL;
+            goto done;
+        }
         result = (*tp->tp_getattro)(delegate, delegate_attr_name);
+        Py_LeaveRecursiveCall();
         goto done;
     }
 
